@@ -435,7 +435,7 @@ var handKeysets = [][]string{
 
 func runC11(cfg *hv.RunCfg) error {
 	rep := hv.NewReport("C11", cfg.Seed)
-	rep.Rule = "hand corpus, then generated: strings over all of Unicode (template sequences, quotes, control characters, non-printables, astral runes; NFC-normalised as cty does), typed nested values (list/set/map/tuple/object, nulls, big/fractional numbers, keyword / non-identifier / unicode keys), absolute and relative traversals, block labels, writer-API files, composed tuple/object/call expressions, plus mutated escaped texts and ALL strings of length <= 4 over a 10-letter alphabet for the two scanners; non-trivial = non-empty string, collection, multi-step traversal, labelled block, file; distinct by SHA-256 of the canonical dump"
+	rep.Rule = "hand corpus, then generated: strings over all of Unicode (template sequences, quotes, control characters, non-printables, astral runes; NFC-normalised as cty does), typed nested values (list/set/map/tuple/object, nulls, big/fractional numbers, keyword / non-identifier / unicode keys), absolute and relative traversals, block labels, writer-API files, composed tuple/object/call expressions, plus mutated escaped texts and ALL strings of length <= 3 (quick) / 4 (thorough) over a 10-letter alphabet for the two scanners; non-trivial = non-empty string, collection, multi-step traversal, labelled block, file; distinct by SHA-256 of the canonical dump"
 	r := hv.NewRng(cfg.Seed, 11)
 	x := &runner{rep: rep, cf: newFiles(cfg.Out), g: &gen{r: r, rep: rep}}
 
@@ -500,7 +500,7 @@ func runC11(cfg *hv.RunCfg) error {
 	x.traversalCase(hcl.Traversal{hcl.TraverseRoot{Name: "a"}, hcl.TraverseIndex{Key: cty.NumberFloatVal(1.5)}, hcl.TraverseAttr{Name: "b"}})
 	x.traversalCase(hcl.Traversal{hcl.TraverseAttr{Name: "b"}, hcl.TraverseIndex{Key: cty.NumberIntVal(0)}})
 
-	// all strings of length <= 4 over a small alphabet: both scanners
+	// all strings of length <= 3 (quick tier) or 4 (thorough) over a small alphabet: both scanners
 	alpha := []byte{'$', '%', '{', '~', 'a', '\\', '"', '\n', 'u', '0'}
 	var rec func(prefix []byte, depth int)
 	nsmall := 0
@@ -517,8 +517,12 @@ func runC11(cfg *hv.RunCfg) error {
 			rec(append(append([]byte{}, prefix...), a), depth-1)
 		}
 	}
-	rec(nil, 4)
-	rep.Exhaustive["scanner_inputs_len_le_4_over_10_letters"] = nsmall
+	depth := 3
+	if cfg.Tier == "thorough" {
+		depth = 4
+	}
+	rec(nil, depth)
+	rep.Exhaustive[fmt.Sprintf("scanner_inputs_len_le_%d_over_10_letters", depth)] = nsmall
 	rep.Evaluations += nsmall
 
 	// ---- generated ----
